@@ -474,7 +474,60 @@ func directedPrograms() []directed {
 	// ... and one whose decimals() never returns: the query must be metered like any other execution
 	ds = append(ds, directed{name: "issue-decimals-loop", gas: []uint64{1000000}, value: "0", mode: "call",
 		code: []byte{0x36, 0x15, 0x60, 0x09, 0x57, 0x5b, 0x60, 0x05, 0x56, 0x5b, 0x60, 5, 0xe0, 0x00}})
+	// factories: several CREATEs with DIFFERENT init code in one call tree; init code carries no code
+	// hash, so whatever the EVM caches per code hash (JUMPDEST analysis) must not leak between them
+	jumper := func(pad int) []byte { // PUSH1 dest JUMP <pad x INVALID> JUMPDEST STOP
+		c := []byte{0x60, byte(3 + pad), 0x56}
+		c = append(c, bytes.Repeat([]byte{0xfe}, pad)...)
+		return append(c, 0x5b, 0x00)
+	}
+	// jumps to a byte that is PUSH data in THIS init code and an opcode position in the other one
+	dataJumper := func(pad int) []byte { // PUSH1 dest JUMP <pad> PUSH1 0x5b STOP ; dest = the 0x5b data byte
+		c := []byte{0x60, byte(4 + pad), 0x56}
+		c = append(c, bytes.Repeat([]byte{0x5b}, pad)...)
+		return append(c, 0x60, 0x5b, 0x00)
+	}
+	for _, f := range []struct {
+		n     string
+		inits [][]byte
+	}{
+		{"short-then-long", [][]byte{jumper(0), jumper(60)}},
+		{"long-then-short", [][]byte{jumper(60), jumper(0)}},
+		{"short-then-longer-then-longest", [][]byte{jumper(0), jumper(37), jumper(200)}},
+		{"same-twice", [][]byte{jumper(9), jumper(9)}},
+		{"code-then-data-at-same-offset", [][]byte{jumper(4), dataJumper(3)}},
+		{"data-then-code-at-same-offset", [][]byte{dataJumper(3), jumper(4)}},
+	} {
+		add("factory-jump/"+f.n, factory(0xf0, f.inits...), 1000000, 10000000)
+		add("factory2-jump/"+f.n, factory(0xf5, f.inits...), 1000000, 10000000)
+	}
+	// ... and the same from inside init code itself (a creation whose constructor creates)
+	ds = append(ds, directed{name: "factory-jump/in-constructor", code: factory(0xf0, jumper(0), jumper(60)), gas: []uint64{10000000}, value: "0", mode: "create"})
 	return ds
+}
+
+// factory builds code that CREATEs (op 0xf0) or CREATE2s (0xf5) one contract per init code, in
+// order, each init code copied from the factory's own code.
+func factory(op byte, inits ...[]byte) []byte {
+	seg := 16
+	if op == 0xf5 {
+		seg = 18
+	}
+	off := seg*len(inits) + 1
+	var c []byte
+	for i, in := range inits {
+		c = append(c, 0x60, byte(len(in)), 0x61, byte(off>>8), byte(off), 0x60, 0, 0x39) // CODECOPY(0, off, len)
+		if op == 0xf5 {
+			c = append(c, 0x60, byte(i+1)) // salt
+		}
+		c = append(c, 0x60, byte(len(in)), 0x60, 0, 0x60, 0, op, 0x50) // CREATE(0, 0, len); POP
+		off += len(in)
+	}
+	c = append(c, 0x00)
+	for _, in := range inits {
+		c = append(c, in...)
+	}
+	return c
 }
 
 // pingPong builds the self-checking value recursion between bRoot and bPeer.
